@@ -20,6 +20,42 @@ pub fn factorize(
     value: &Number,
     quantities: &BTreeMap<Dimensionality, Rc<String>>,
 ) -> BinaryHeap<Factors> {
+    // The result only depends on the dimensionality, and the same
+    // sub-dimensionalities are reached along very many paths, so remember
+    // them: without this, `factorize power` takes longer than anyone waits.
+    let mut memo = BTreeMap::new();
+    factorize_memo(value, quantities, &mut memo)
+        .into_iter()
+        .collect()
+}
+
+fn factorize_memo(
+    value: &Number,
+    quantities: &BTreeMap<Dimensionality, Rc<String>>,
+    memo: &mut BTreeMap<Dimensionality, Vec<(usize, Vec<Rc<String>>)>>,
+) -> Vec<Factors> {
+    if let Some(known) = memo.get(&value.unit) {
+        return known
+            .iter()
+            .map(|(score, names)| Factors(*score, names.clone()))
+            .collect();
+    }
+    let result = factorize_inner(value, quantities, memo).into_vec();
+    memo.insert(
+        value.unit.clone(),
+        result
+            .iter()
+            .map(|Factors(score, names)| (*score, names.clone()))
+            .collect(),
+    );
+    result
+}
+
+fn factorize_inner(
+    value: &Number,
+    quantities: &BTreeMap<Dimensionality, Rc<String>>,
+    memo: &mut BTreeMap<Dimensionality, Vec<(usize, Vec<Rc<String>>)>>,
+) -> BinaryHeap<Factors> {
     if value.dimless() {
         let mut map = BinaryHeap::new();
         map.push(Factors(0, vec![]));
@@ -39,7 +75,7 @@ pub fn factorize(
         if score >= value_score {
             continue;
         }
-        let res = factorize(&res, quantities);
+        let res = factorize_memo(&res, quantities, memo);
         for Factors(score, mut vec) in res {
             vec.push(name.clone());
             vec.sort();
